@@ -235,6 +235,17 @@ fn tier_a(rep: &mut Report, thorough: bool) {
             }
         }
     }
+    // the same value three times and more (the stores merge duplicates), alone and interleaved
+    for prefix in [0usize, 1, 3] {
+        for store in [StoreKind::Plain, StoreKind::Indexed] {
+            for l in [1usize, prefix + 2, 300] {
+                let (v, w) = ((l, b'a'), (l + 1, b'b'));
+                for pat in ["VVV", "VVVV", "VWVVV", "WVVVWW", "VVVVVWWW", "WWWV"] {
+                    adescs.push(AD { prefix, store, vals: pat.chars().map(|c| if c == 'V' { v } else { w }).collect() });
+                }
+            }
+        }
+    }
     run_cases(rep, &adescs, |d| {
         let spec = one_col(
             PropSpec::A {
@@ -721,7 +732,7 @@ fn c02(args: &Args) -> ! {
     let mut rep = Report::new(
         "schemamc",
         "C02",
-        "every schema/entry-set of tiers A (one column, all multisets of boundary values), B (all ordered pairs/triples of property kinds x constant/varying), C (variants: common x 1..3 variants from a menu incl. zero-width/empty/33-byte ones x 0..2 entries each x 2 orders), D (shared stores, key-width and 64 KiB tail boundaries), E (all index windows on <=4 entries, two indexes), large structured stores; a case is non-trivial when it holds at least one entry; distinct by canonical spec",
+        "every schema/entry-set of tiers A (one column, all multisets of boundary values, values repeated 3..5 times), B (all ordered pairs/triples of property kinds x constant/varying), C (variants: common x 1..3 variants from a menu incl. zero-width/empty/33-byte ones x 0..2 entries each x 2 orders), D (shared stores, key-width and 64 KiB tail boundaries), E (all index windows on <=4 entries, two indexes), large structured stores; a case is non-trivial when it holds at least one entry; distinct by canonical spec",
     );
     if let Some(p) = &args.replay {
         let j: J = serde_json::from_str(&std::fs::read_to_string(p).expect("replay file")).unwrap();
@@ -1584,6 +1595,124 @@ fn cross_store_result(c: &CrossCase) -> CaseResult {
     }
 }
 
+/// Three stores in one pack, added in the order (X, F, D): D is sorted on its key (the sort
+/// reverses it), F is sorted on (position of its entry of D, name), X references entries of F.
+/// Every stored reference must be the final position of its target.
+fn three_store_result(n: usize, order: u8) -> CaseResult {
+    use jbk::creator::schema;
+    let cj = json!({"engine":"schemamc","sub":"c15","three_stores":{"n":n,"order":order}});
+    let done = |outcome: &str, v: Option<(String, String)>| CaseResult {
+        id: format!("three:{cj}"),
+        nontrivial: true,
+        outcome: outcome.into(),
+        violation: v.map(|(k, w)| (k, w, cj.clone())),
+        sample: json!({"tier": "three-stores", "case": cj}),
+    };
+    // D: entry i has key n-i (final position n-1-i); F: entry j lives in D's entry j (final
+    // position of F's entry j: sorted on D's final position, i.e. n-1-j); X: entry k -> F's entry k
+    let built = jbkmc::catch(|| -> Result<Vec<u8>, String> {
+        let mut creator = jbk::creator::DirectoryPackCreator::new(jbk::PackId::from(0), jbk::VendorId::from([1, 2, 3, 4]), Default::default());
+        let schema_d = schema::Schema::<&'static str, &'static str>::new(schema::CommonProperties::new(vec![schema::Property::new_uint("key"), schema::Property::new_uint("id")]), vec![], Some(vec!["key"]));
+        let schema_f = schema::Schema::<&'static str, &'static str>::new(schema::CommonProperties::new(vec![schema::Property::new_uint("dir"), schema::Property::new_uint("name"), schema::Property::new_uint("id")]), vec![], Some(vec!["dir", "name"]));
+        let schema_x = schema::Schema::<&'static str, &'static str>::new(schema::CommonProperties::new(vec![schema::Property::new_uint("id"), schema::Property::new_uint("file")]), vec![], None);
+        let mut d = Box::new(jbk::creator::EntryStore::new(schema_d, None));
+        let mut f = Box::new(jbk::creator::EntryStore::new(schema_f, None));
+        let mut x = Box::new(jbk::creator::EntryStore::new(schema_x, None));
+        let mut dh = vec![];
+        for i in 0..n {
+            let e = jbk::creator::BasicEntry::new_from_schema(&d.schema, None, std::collections::HashMap::from([("key", jbk::Value::Unsigned((n - i) as u64)), ("id", jbk::Value::Unsigned(i as u64))]));
+            dh.push(d.add_entry(e));
+        }
+        let mut fh = vec![];
+        for j in 0..n {
+            let e = jbk::creator::BasicEntry::new_from_schema(
+                &f.schema,
+                None,
+                std::collections::HashMap::from([("dir", jbk::Value::UnsignedWord(dh[j].clone().into())), ("name", jbk::Value::Unsigned(j as u64)), ("id", jbk::Value::Unsigned(j as u64))]),
+            );
+            fh.push(f.add_entry(e));
+        }
+        for k in 0..n.min(20) {
+            let e = jbk::creator::BasicEntry::new_from_schema(&x.schema, None, std::collections::HashMap::from([("id", jbk::Value::Unsigned(k as u64)), ("file", jbk::Value::UnsignedWord(fh[k].clone().into()))]));
+            x.add_entry(e);
+        }
+        let nx = n.min(20) as u32;
+        let (ix, if_, id) = match order {
+            0 => {
+                let a = creator.add_entry_store(x);
+                let b = creator.add_entry_store(f);
+                let c = creator.add_entry_store(d);
+                (a, b, c)
+            }
+            1 => {
+                let c = creator.add_entry_store(d);
+                let b = creator.add_entry_store(f);
+                let a = creator.add_entry_store(x);
+                (a, b, c)
+            }
+            _ => {
+                let b = creator.add_entry_store(f);
+                let a = creator.add_entry_store(x);
+                let c = creator.add_entry_store(d);
+                (a, b, c)
+            }
+        };
+        creator.create_index("x", Default::default(), 0.into(), ix, jbk::EntryCount::from(nx), jbk::EntryIdx::from(0).into());
+        creator.create_index("f", Default::default(), 0.into(), if_, jbk::EntryCount::from(n as u32), jbk::EntryIdx::from(0).into());
+        creator.create_index("d", Default::default(), 0.into(), id, jbk::EntryCount::from(n as u32), jbk::EntryIdx::from(0).into());
+        let mut out = std::io::Cursor::new(Vec::new());
+        creator.finalize().map_err(|e| format!("finalize: {e}"))?.write(&mut out).map_err(|e| format!("write: {e}"))?;
+        Ok(out.into_inner())
+    });
+    let bytes = match built {
+        Ok(Ok(b)) => b,
+        Ok(Err(e)) => return done("violation", Some(("C15 creation failed (three stores)".into(), e))),
+        Err(p) => return done("violation", Some((format!("C15 creation failed (three stores) {}", jbkmc::panic_site(&p)), p))),
+    };
+    let read = jbkmc::catch(|| -> Result<(), (String, String)> {
+        let od = open(bytes).map_err(|e| ("C15 three stores: directory pack does not open".to_string(), e))?;
+        let get = |name: &str, count: usize, props: &[&str]| -> Result<Vec<Vec<u64>>, (String, String)> {
+            let ix = od.index(name).map_err(|e| (format!("C15 three stores: index {name}"), e))?.ok_or((format!("C15 three stores: index {name} missing"), String::new()))?;
+            let mut rows = vec![];
+            for p in 0..count as u32 {
+                let e = ix.entry(p).map_err(|e| (format!("C15 three stores: unreadable entry of {name}"), e))?.ok_or((format!("C15 three stores: entry of {name} missing"), format!("{p}")))?;
+                rows.push(props.iter().map(|pr| match e.vals.get(*pr) { Some(jbkmc::dirmodel::RVal::U(v)) => *v, _ => u64::MAX }).collect());
+            }
+            Ok(rows)
+        };
+        let drows = get("d", n, &["key", "id"])?;
+        let frows = get("f", n, &["dir", "name", "id"])?;
+        let xrows = get("x", n.min(20), &["id", "file"])?;
+        // position of D's entry i / F's entry j as stored
+        let pos_d: std::collections::HashMap<u64, usize> = drows.iter().enumerate().map(|(p, r)| (r[1], p)).collect();
+        let pos_f: std::collections::HashMap<u64, usize> = frows.iter().enumerate().map(|(p, r)| (r[2], p)).collect();
+        if drows.windows(2).any(|w| w[0][0] > w[1][0]) {
+            return Err(("C15 three stores: store D is not sorted on its key".into(), format!("{:?}", &drows[..drows.len().min(6)])));
+        }
+        for r in &frows {
+            let want = pos_d[&r[2]] as u64; // F's entry j lives in D's entry j
+            if r[0] != want {
+                return Err(("C15 reference into another store does not resolve to the final position".into(), format!("entry #{} of F references entry #{} of D (final position {want}), stored {}", r[2], r[2], r[0])));
+            }
+        }
+        if frows.windows(2).any(|w| (w[0][0], w[0][1]) > (w[1][0], w[1][1])) {
+            return Err(("C15 three stores: store F is not sorted on (position in D, name)".into(), format!("{:?}", &frows[..frows.len().min(6)])));
+        }
+        for r in &xrows {
+            let want = pos_f[&r[0]] as u64;
+            if r[1] != want {
+                return Err(("C15 reference into another store does not resolve to the final position".into(), format!("entry #{} of X references entry #{} of F (final position {want}), stored {}", r[0], r[0], r[1])));
+            }
+        }
+        Ok(())
+    });
+    match read {
+        Ok(Ok(())) => done("ok(three stores)", None),
+        Ok(Err((k, w))) => done("violation", Some((k, w))),
+        Err(p) => done("violation", Some((format!("C15 three stores: reader panics {}", jbkmc::panic_site(&p)), p))),
+    }
+}
+
 fn cross_cases(thorough: bool) -> Vec<CrossCase> {
     let mut v = vec![];
     // small: every target function for n <= 3, 2 entries in A
@@ -1626,7 +1755,7 @@ fn c15(args: &Args) -> ! {
     let mut rep = Report::new(
         "schemamc",
         "C15",
-        "every reference function f: entries -> entries+none ((n+1)^n graphs) x every insertion order (n!) x {sorted,unsorted} x {reference column alone, next to another column} x {unsigned word, unsigned word beside plain equal constants, signed word = target position, signed word = target - own position}, n in 1..4 (quick) / 1..5 (thorough), plus structured graphs (successor chain, everyone->last, reversal, self) at n in {32,300,1000,20000} crossing the 1-byte position boundary and rayon's sequential cut-offs; non-trivial = at least one reference and (unsorted or the sort moves an entry)",
+        "every reference function f: entries -> entries+none ((n+1)^n graphs) x every insertion order (n!) x {sorted,unsorted} x {reference column alone, next to another column} x {unsigned word, unsigned word beside plain equal constants, signed word = target position, signed word = target - own position}, n in 1..4 (quick) / 1..5 (thorough), plus references between two and three stores of one pack (every target function on small stores, stores of 257/300 entries reversed by their sort, every order of adding the stores); plus structured graphs (successor chain, everyone->last, reversal, self) at n in {32,300,1000,20000} crossing the 1-byte position boundary and rayon's sequential cut-offs; non-trivial = at least one reference and (unsorted or the sort moves an entry)",
     );
     if let Some(p) = &args.replay {
         let j: J = serde_json::from_str(&std::fs::read_to_string(p).expect("replay file")).unwrap();
@@ -1774,6 +1903,9 @@ fn c15(args: &Args) -> ! {
     // references from one store into another store of the same pack
     let cc = cross_cases(t);
     run_cases(&mut rep, &cc, |d| cross_store_result(d));
+    // a chain of three stores: X -> F (sorted on its reference into D) -> D (sorted)
+    let three: Vec<(usize, u8)> = [2usize, 3, 10, 257, 300].iter().flat_map(|&n| (0..3u8).map(move |o| (n, o))).collect();
+    run_cases(&mut rep, &three, |(n, o)| three_store_result(*n, *o));
     rep.finish(args)
 }
 
